@@ -15,6 +15,7 @@ import json
 import math
 import warnings
 
+from simkit import core
 from simkit.refmodels.hotp import ref_hotp, ref_match, ref_normalize_token
 
 NAME = "totp"
@@ -34,7 +35,7 @@ RULE = {
            "sequences of (form, which fields equal library/class defaults, label/issuer character classes, hostile kind)",
 }
 FAULT_KINDS = {
-    "C13": ["device_clock_step", "device_skew", "key_rotation"],
+    "C13": ["device_clock_step", "device_skew", "key_rotation", "preemption"],
     "C14": ["server_clock_step", "device_clock_step", "device_skew", "net_delay", "net_dup", "net_drop", "net_reorder",
             "attack_replay", "attack_neighbour", "attack_corrupt", "attack_wrong_length", "server_restart"],
     "C15": ["server_restart", "corrupt_source", "key_rotation"],
@@ -113,7 +114,35 @@ def _boundary_time(rng, period, window):
     return max(0, base + off)
 
 
+def _gen_threads(rng, prop, tier):
+    """several caller threads compute and check codes at once (own objects, or one object shared by all): the module keeps no
+    per-call state, so whichever thread runs between any two lines of another, every code is still the RFC's"""
+    nthreads = rng.choice([2, 2, 3])
+    shared = rng.random() < 0.3
+    accts = [_gen_account(rng, prop) for _ in range(1 if shared else nthreads)]
+    threads = []
+    for i in range(nthreads):
+        calls = []
+        for _ in range(rng.randint(2, 5)):
+            t = rng.choice([rng.randint(0, 2 ** 31), rng.randint(0, 10 ** 5), rng.randint(2 ** 32, 2 ** 40)])
+            calls.append([rng.choice(["generate", "generate", "match", "verify"]), t, rng.choice([0, 0, 30, 90])])
+        threads.append(calls)
+    strategy = rng.choices(["sticky", "pct", "uniform", "park"], [35, 25, 15, 25])[0]
+    sparams = {}
+    if strategy == "sticky":
+        sparams["p"] = rng.choice([0.01, 0.03, 0.1, 0.3])
+    elif strategy == "pct":
+        sparams = {"depth": rng.choice([1, 2, 3]), "est_len": rng.choice([50, 150, 400])}
+    elif strategy == "park":
+        sparams = {"victim": rng.randrange(nthreads), "p": rng.choice([0.0, 0.0, 0.01]), "at": rng.choice([rng.randint(1, 40), rng.randint(1, 400)])}
+    cfg = {"mode": "threads", "accounts": accts, "shared": shared, "threads": threads, "strategy": strategy, "sparams": sparams,
+           "opcode": tier == "thorough" and rng.random() < 0.3, "seed": rng.getrandbits(32)}
+    return {"cfg": cfg, "ops": []}
+
+
 def generate(rng, prop, tier):
+    if prop == "C13" and rng.random() < 0.07:
+        return _gen_threads(rng, prop, tier)
     n_acct = rng.choice([1, 1, 2, 3])
     accounts = [_gen_account(rng, prop) for _ in range(n_acct)]
     window_default = rng.choice([0, 1, 10, 30, 30, 60, 300])
@@ -123,6 +152,10 @@ def generate(rng, prop, tier):
         t0 = rng.randint(0, 5)
     if prop == "C13" and rng.random() < 0.15:
         t0 = rng.randint(2 ** 38, 2 ** 40 - 10 ** 6)
+    if prop in ("C13", "C14") and rng.random() < 0.04:
+        # a clock set absurdly wrong (beyond what C's struct tm can express): still integers, still RFC arithmetic
+        t0 = rng.randint(2 ** 56, 2 ** 60)
+        float_clock = False
     frac = rng.choice([0.0, 0.25, 0.5, 0.999]) if float_clock else 0
     faults_on = rng.random() < 0.7
     devices = []
@@ -165,7 +198,7 @@ def generate(rng, prop, tier):
             delay = rng.choice([0, 0, 0, 1, 2, per, rng.randint(0, 3 * per)])
             op = {"op": "emit", "dev": d, "tform": rng.choice(["now", "now", "now", "int", "float", "dt_utc", "dt_tz", "dt_naive"]),
                   "delay": delay if (faults_on or delay <= 2) else 0, "dup": None, "drop": False,
-                  "submit_as": rng.choice(["str", "str", "str", "int", "bytes", "spaced", "dashed"]),
+                  "submit_as": rng.choice(["str", "str", "str", "int", "bytes", "spaced", "dashed", "uspaced", "uspaced_bytes"]),
                   "tmode": rng.choice(["now", "now", "int", "float", "dt"])}
             if faults_on:
                 if rng.random() < 0.12:
@@ -249,6 +282,8 @@ HOSTILE_KINDS = ["uri_conflicting_issuer", "uri_duplicate_secret", "uri_duplicat
 
 def simplify_op(op):
     out = []
+    if not isinstance(op, dict):
+        return out  # (a recorded thread switch)
     if op.get("op") == "emit":
         for k, v in (("dup", None), ("drop", False), ("delay", 0), ("tform", "now"), ("submit_as", "str"), ("tmode", "now")):
             if op.get(k) != v:
@@ -267,6 +302,16 @@ def simplify_op(op):
 
 def simplify_cfg(cfg):
     out = []
+    if cfg.get("mode") == "threads":
+        th = cfg["threads"]
+        for i, calls in enumerate(th):
+            if len(calls) > 1:
+                for j in range(len(calls)):
+                    c = dict(cfg)
+                    c["threads"] = [list(x) for x in th]
+                    c["threads"][i] = calls[:j] + calls[j + 1:]
+                    out.append(c)
+        return out
     if cfg.get("frac"):
         c = dict(cfg)
         c["frac"] = 0
@@ -619,6 +664,13 @@ class _World:
             token_sub = " " + token[:3] + " " + token[3:] + "\t"
         elif sub == "dashed":
             token_sub = token[:2] + "-" + token[2:]
+        elif sub in ("uspaced", "uspaced_bytes"):
+            # pasted from a web page / typed on a phone: "whitespace" is any Unicode blank, not only the ASCII ones
+            blanks = ["\u00a0", "\u2009", "\u202f", "\u3000", "\u2028", "\x85", "\x1c", "\u2003"]
+            b1, b2 = blanks[c % len(blanks)], blanks[(c // 8 + op["dev"]) % len(blanks)]
+            token_sub = token[:3] + b1 + token[3:] + b2
+            if sub == "uspaced_bytes":
+                token_sub = token_sub.encode("utf-8")
         else:
             token_sub = token
         msg = {"acct": dev["cfg"]["acct"], "token": token_sub, "counter": c, "tmode": op.get("tmode", "now"),
@@ -1098,8 +1150,100 @@ def _cls(s):
     return "".join(sorted({"A" if ch.isascii() and ch.isalnum() else "U" if not ch.isascii() else ch for ch in s}))
 
 
+def _execute_threads(program, ctx):
+    import random
+    import sys
+
+    from passlib import exc
+    from passlib.totp import TOTP
+    from simkit.sched import Scheduler, repo_prefixes
+
+    cfg = program["cfg"]
+    decisions = program["ops"] if cfg["strategy"] == "replay" else None
+    sched = Scheduler(random.Random(cfg["seed"]), cfg["strategy"], cfg.get("sparams"), repo_prefixes(), max_steps=60000,
+                      opcode_hot=cfg.get("opcode", False), hot_names=("_generate", "_pack_uint64", "_find_match", "normalize_token"),
+                      decisions=decisions)
+    objs = []
+    with warnings.catch_warnings(record=True):
+        warnings.simplefilter("always")
+        for a in cfg["accounts"]:
+            objs.append(TOTP(key=bytes.fromhex(a["key"]), format="raw", alg=a["alg"], digits=a["digits"], period=a["period"]))
+    results = [None] * len(cfg["threads"])
+
+    def make(i, calls):
+        totp = objs[0] if cfg["shared"] else objs[i]
+
+        def body(worker):
+            out = []
+            for kind, t, window in calls:
+                try:
+                    if kind == "generate":
+                        tok = totp.generate(t)
+                        out.append(["token", tok.token, tok.counter])
+                    else:
+                        a = cfg["accounts"][0 if cfg["shared"] else i]
+                        code = ref_hotp(bytes.fromhex(a["key"]), t // a["period"], a["alg"], a["digits"])
+                        if kind == "match":
+                            m = totp.match(code, t, window=window)
+                        else:
+                            m = TOTP.verify(code, totp.to_dict(), time=t, window=window)
+                        out.append(["match", m.counter, m.time])
+                except exc.TokenError as e:
+                    out.append(["refused", type(e).__name__])
+                except Exception as e:  # noqa: BLE001
+                    out.append(["raised", type(e).__name__, str(e)[:80]])
+            results[i] = out
+            return True
+        return body
+
+    for i, calls in enumerate(cfg["threads"]):
+        sched.spawn(make(i, calls))
+    finished = sched.run(timeout=50)
+    sys.settrace(None)
+    ctx.op(sum(len(c) for c in cfg["threads"]))
+    ctx.sim_time += sched.step
+    ctx.fault("preemption", max(0, len(sched.switches) - 1))
+    ctx.log("switches", sched.switches)
+    ctx.replay_program = {"cfg": dict(cfg, strategy="replay", sparams={}), "ops": [list(x) for x in sched.switches]}
+    if sched.harness_error:
+        raise core.HarnessError(f"threads: exception inside the scheduler's trace function: {sched.harness_error}")
+    if sched.deadlock or not finished:
+        raise core.HarnessError(f"threads: scheduler lost control / deadlock {sched.deadlock} (there is no lock in this code)")
+    if sched.capped:
+        ctx.probe("step_cap_hit")
+        return
+    for w in sched.workers:
+        if w.result is not True:
+            raise core.HarnessError(f"worker {w.idx} failed in the harness: {w.result}")
+    ctx.log("outcomes", results)
+    if len(sched.switches) > 1:
+        ctx.nontrivial = True
+        ctx.probe("threads_interleaved")
+    ctx.key("threads", [list(x) for x in sched.switch_sites][:40])
+    for i, calls in enumerate(cfg["threads"]):
+        a = cfg["accounts"][0 if cfg["shared"] else i]
+        key = bytes.fromhex(a["key"])
+        for (kind, t, window), got in zip(calls, results[i]):
+            c = t // a["period"]
+            if kind == "generate":
+                want = ["token", ref_hotp(key, c, a["alg"], a["digits"]), c]
+                ctx.check(got == want, "C13", "token-differs-from-rfc",
+                          lambda: f"thread {i} (of {len(calls)} running at once, shared object={cfg['shared']}): generate({t}) gave {got}, RFC says {want}; "
+                                  f"switches={sched.switch_sites[:8]}", concurrent=True)
+            else:
+                # the thread's own correct code for time t, window >= 0: accepted at its own counter (an earlier counter only if
+                # the same code happens to occur there)
+                ok = got[0] == "match" and got[1] <= c and ref_hotp(key, got[1], a["alg"], a["digits"]) == ref_hotp(key, c, a["alg"], a["digits"]) \
+                    and (got[1] == c or abs(got[1] - c) * a["period"] <= window + a["period"])
+                ctx.check(ok, "C13", "own-code-not-accepted",
+                          lambda: f"thread {i}: {kind}(own code for {t}, window={window}) gave {got}, counter should be {c}; "
+                                  f"switches={sched.switch_sites[:8]}", concurrent=True)
+
+
 def execute(program, ctx):
     cfg = program["cfg"]
+    if cfg.get("mode") == "threads":
+        return _execute_threads(program, ctx)
     w = _World(cfg, ctx)
     for op in program["ops"]:
         ctx.op()
